@@ -1,9 +1,9 @@
-(* Bridges for the small pure helpers of biom/table.py and biom/util.py that tools/py2v
-   regenerates on every check (Gen/HelpersGen.v, Gen/UtilGen.v): C09 (merge orders, prefer_self),
-   C05 (index_list), C19 (axis mapping of Table.sum), and the two axis helpers. *)
+(* Bridges for C09: the merge orders and the default metadata policy, as tools/py2v regenerates
+   them on every check from Table._union_id_order / Table._intersect_id_order (biom/table.py ->
+   Gen/HelpersGen.v) and util.prefer_self (biom/util.py -> Gen/UtilGen.v), against Model/Merge.v. *)
 From Coq Require Import String List Arith ZArith Lia Bool.
-From BiomV Require Import Base.Tree Base.ListUtil Base.Matrix Model.Table Model.Merge Model.Summary.
-From BiomV Require Import Gen.Prelude Gen.HelpersGen Gen.UtilGen.
+From BiomV Require Import Base.Tree Base.ListUtil Base.Matrix Model.Table.
+From BiomV Require Import Model.Merge Gen.Prelude Gen.HelpersGen Gen.UtilGen.
 Import ListNotations.
 
 (* ---------- integer-keyed dictionaries ---------- *)
@@ -119,83 +119,3 @@ Proof. vm_compute. split; reflexivity. Qed.
 Theorem prefer_self_bridge x y : prefer_self x y = prefer_self_gen x y.
 Proof. reflexivity. Qed.
 
-(* ================================================================================================
-   util.index_list: {id: position}.  A repeated id keeps its LAST position (the comprehension
-   overwrites), Table.pos gives the first: they agree on lists without duplicates.                 *)
-Lemma zdget_zdset_same {V} (d : zdict V) k v : zdget (zdset d k v) k = Some v.
-Proof.
-  induction d as [|[k' v'] d IH]; simpl.
-  - rewrite Z.eqb_refl. reflexivity.
-  - destruct (Z.eqb k k') eqn:E; simpl; [rewrite Z.eqb_refl; reflexivity|rewrite E; exact IH].
-Qed.
-
-Lemma zdget_zdset_other {V} (d : zdict V) k k2 v : k2 <> k -> zdget (zdset d k v) k2 = zdget d k2.
-Proof.
-  intros Hne. induction d as [|[k' v'] d IH]; simpl.
-  - destruct (Z.eqb k2 k) eqn:E; [apply Z.eqb_eq in E; contradiction|reflexivity].
-  - destruct (Z.eqb k k') eqn:E; simpl.
-    + apply Z.eqb_eq in E. subst k'. destruct (Z.eqb k2 k) eqn:E2; [apply Z.eqb_eq in E2; contradiction|reflexivity].
-    + destruct (Z.eqb k2 k'); [reflexivity|exact IH].
-Qed.
-
-Lemma index_fold l : forall s d x,
-  NoDup l ->
-  zdget (fold_left (fun d '(idx, id_) => zdset d id_ idx) (combine (seq s (length l)) l) d) x =
-  match index_of Z.eqb x l with Some i => Some (s + i) | None => zdget d x end.
-Proof.
-  induction l as [|y l IH]; intros s d x Hn; [reflexivity|].
-  inversion Hn as [|? ? Hy Hl]; subst. cbn [length seq combine fold_left index_of].
-  rewrite IH by exact Hl. destruct (Z.eqb x y) eqn:E.
-  - apply Z.eqb_eq in E. subst y.
-    assert (N : index_of Z.eqb x l = None) by (apply index_of_Z_None; exact Hy).
-    rewrite N. rewrite zdget_zdset_same. f_equal. lia.
-  - destruct (index_of Z.eqb x l) as [i|]; simpl.
-    + f_equal. lia.
-    + apply zdget_zdset_other. intros ->. rewrite Z.eqb_refl in E. discriminate.
-Qed.
-
-Theorem index_list_bridge_partial l x : NoDup l -> zdget (index_list l) x = pos x l.
-Proof.
-  intros Hn. unfold index_list, pos. rewrite index_fold by exact Hn.
-  destruct (index_of Z.eqb x l); reflexivity.
-Qed.
-
-Example index_list_dup_differs : zdget (index_list [5;5]%Z) 5%Z = Some 1 /\ pos 5%Z [5;5]%Z = Some 0.
-Proof. vm_compute. split; reflexivity. Qed.
-
-(* ================================================================================================
-   axis names.  Table._invert_axis / _axis_to_num / the axis mapping at the head of Table.sum,
-   against the axis types of the models (Table.axis, Table.other, Summary.axis3).                   *)
-Open Scope string_scope.
-Definition axis_str (a : axis) : string := match a with Obs => "observation" | Samp => "sample" end.
-Definition axis3_str (a : axis3) : string :=
-  match a with AObs => "observation" | ASamp => "sample" | AWhole => "whole" end.
-(* the `axis` argument scipy's sum is called with: None = everything, 0 = one figure per column
-   (sample), 1 = one figure per row (observation); Summary.r_sum3 selects by axis3 *)
-Definition scipy_axis (a : axis3) : option nat := match a with AWhole => None | ASamp => Some 0 | AObs => Some 1 end.
-
-Theorem invert_axis_bridge a : invert_axis (axis_str a) = inl (axis_str (other a)).
-Proof. destruct a; reflexivity. Qed.
-
-Theorem invert_axis_unknown s : s <> "sample" -> s <> "observation" -> invert_axis s = inr (UnknownAxisError s).
-Proof.
-  intros H1 H2. unfold invert_axis.
-  destruct (String.eqb s "sample") eqn:E1; [apply String.eqb_eq in E1; contradiction|].
-  destruct (String.eqb s "observation") eqn:E2; [apply String.eqb_eq in E2; contradiction|reflexivity].
-Qed.
-
-(* numerical axis: observation = 0 (rows), sample = 1 (columns) *)
-Theorem axis_to_num_bridge a : axis_to_num (axis_str a) = Ok (match a with Obs => 0 | Samp => 1 end).
-Proof. destruct a; reflexivity. Qed.
-
-Theorem sum_axis_bridge a : sum_axis (axis3_str a) = Ok (scipy_axis a).
-Proof. destruct a; reflexivity. Qed.
-
-Theorem sum_axis_unknown s :
-  s <> "whole" -> s <> "sample" -> s <> "observation" -> sum_axis s = Raise (UnknownAxisError s).
-Proof.
-  intros H1 H2 H3. unfold sum_axis.
-  destruct (String.eqb s "whole") eqn:E1; [apply String.eqb_eq in E1; contradiction|].
-  destruct (String.eqb s "sample") eqn:E2; [apply String.eqb_eq in E2; contradiction|].
-  destruct (String.eqb s "observation") eqn:E3; [apply String.eqb_eq in E3; contradiction|reflexivity].
-Qed.
